@@ -272,8 +272,10 @@ theorem routed_iff_candidate_built (cfg : Cfg) (t : Table) (req : Req) (hb : Bui
 candidate is more specific —
 (1) host-less only as fallback: if a candidate's key matches the request host, so does the answer's key;
 (2) exact beats pattern: if such a candidate's key has no glob metacharacter, neither has the answer's;
-(3) longer suffix beats shorter: if such a candidate's key is `*`+X+S (no `:`, last character of X above `*`),
-    the answer's key is not `*`+S;
+(3) longer suffix beats shorter: if such a candidate's key has the host part `Y`+`T` (`hostPart`: the host of
+    `net.SplitHostPort`, the whole key without a port; `Y` at least two characters), the answer's key is not a
+    pattern with the host part `*`+`T` (for keys without a colon and keys `host:port` the host part is what it
+    looks like: `hostPart_no_colon`, `hostPart_host_port`);
 (4) longest path (prefix and iprefix matchers): no candidate under the answer's key has a longer path.
 No sortedness / no-empty-route hypothesis. -/
 theorem most_specific_built (cfg : Cfg) (t : Table) (req : Req) (hb : Built t) (hns : NoSkip cfg)
@@ -282,8 +284,8 @@ theorem most_specific_built (cfg : Cfg) (t : Table) (req : Req) (hb : Built t) (
     ∀ k r', Candidate cfg t req k r' →
       (KeyMatches cfg req k → KeyMatches cfg req (lowerL h)) ∧
       (KeyMatches cfg req k → isGlobPat k = false → isGlobPat h = false) ∧
-      (KeyMatches cfg req k → ∀ S X : Str, ∀ hX : X ≠ [], ':' ∉ X ++ S → '*'.toNat < (X.getLast hX).toNat →
-          k = '*' :: (X ++ S) → h ≠ '*' :: S) ∧
+      (KeyMatches cfg req k → ∀ Y T : Str, 2 ≤ Y.length → hostPart k = Y ++ T →
+          ¬ (isGlobPat h = true ∧ hostPart h = '*' :: T)) ∧
       (∀ pg kind, kind ≠ MatcherKind.glob → cfg.pathMatch = pathMatch pg kind → k = lowerL h →
           r'.path.length ≤ r.path.length) := by
   refine ⟨answer_is_candidate hpick hres, ?_⟩
@@ -296,9 +298,8 @@ theorem most_specific_built (cfg : Cfg) (t : Table) (req : Req) (hb : Built t) (
       (host_less_only_as_fallback cfg t req hns hres (hostMatches_of_keyMatches hb hk hkm) hcand)
   · intro hkm hex
     exact exact_beats_wildcard cfg t req hns hres (hostMatches_of_keyMatches hb hk hkm) hex hcand
-  · intro hkm S X hX hcolon hlast hke hh
-    subst hke; subst hh
-    exact longer_suffix_beats_shorter cfg t req hns S X hX hcolon hlast
+  · intro hkm Y T hY hka ⟨hpat, hha⟩
+    exact longer_suffix_beats_shorter_partial cfg t req hns k h Y T hY hka hha hpat
       (hostMatches_of_keyMatches hb hk hkm) hcand r tg hres
   · intro pg kind hkind hcfg hke
     subst hke
@@ -327,8 +328,8 @@ theorem most_specific_unconditional (env : Env) (pf : ParseFloat) (text : Str) (
     ∀ k r', Candidate cfg t req k r' →
       (KeyMatches cfg req k → KeyMatches cfg req (lowerL h)) ∧
       (KeyMatches cfg req k → isGlobPat k = false → isGlobPat h = false) ∧
-      (KeyMatches cfg req k → ∀ S X : Str, ∀ hX : X ≠ [], ':' ∉ X ++ S → '*'.toNat < (X.getLast hX).toNat →
-          k = '*' :: (X ++ S) → h ≠ '*' :: S) ∧
+      (KeyMatches cfg req k → ∀ Y T : Str, 2 ≤ Y.length → hostPart k = Y ++ T →
+          ¬ (isGlobPat h = true ∧ hostPart h = '*' :: T)) ∧
       (∀ pg kind, kind ≠ MatcherKind.glob → cfg.pathMatch = pathMatch pg kind → k = lowerL h →
           r'.path.length ≤ r.path.length) :=
   most_specific_built cfg t req (built_loadTable hl) hns hpick hres
@@ -341,8 +342,8 @@ theorem most_specific_unconditional_custom (env : Env) (defs : List RouteDef) (c
     ∀ k r', Candidate cfg t req k r' →
       (KeyMatches cfg req k → KeyMatches cfg req (lowerL h)) ∧
       (KeyMatches cfg req k → isGlobPat k = false → isGlobPat h = false) ∧
-      (KeyMatches cfg req k → ∀ S X : Str, ∀ hX : X ≠ [], ':' ∉ X ++ S → '*'.toNat < (X.getLast hX).toNat →
-          k = '*' :: (X ++ S) → h ≠ '*' :: S) ∧
+      (KeyMatches cfg req k → ∀ Y T : Str, 2 ≤ Y.length → hostPart k = Y ++ T →
+          ¬ (isGlobPat h = true ∧ hostPart h = '*' :: T)) ∧
       (∀ pg kind, kind ≠ MatcherKind.glob → cfg.pathMatch = pathMatch pg kind → k = lowerL h →
           r'.path.length ≤ r.path.length) :=
   most_specific_built cfg t req (built_newTable hl) hns hpick hres
